@@ -159,6 +159,16 @@ class Script(Session):
         self.replay_verdicts.append((name, v))
         return v
 
+    def expected_fail(self, kid, name):
+        """clause inside a recorded known finding with no claim outside it in this script variant: no proof is attempted;
+        the check driver replays the recorded witness on the real code and reports KNOWN-FINDING (or a VIOLATION if the
+        finding is not on file)"""
+        full = f"{self.label}/{name}/path{self.paths}"
+        res = Result(full, "failed", "known-finding(no proof attempted)", 0.0, detail="expected to fail: " + kid)
+        res.known_id = kid
+        self.results.append(res)
+        return res
+
     def known(self, kid, name, goal, carve=None):
         """clause covered by a recorded known finding `kid`: the clause must hold OUTSIDE the carve-out (proved here,
         unless the carve-out is the whole regime of this script variant: carve=None);
